@@ -71,6 +71,15 @@ def run(tier, seed, replay=None):
                                    workers=4), "arr", 0)]
     hists = []
     states = trans = 0
+    # design level: the chained hash table of map.c (RtMapImpl: resize at 3/4, relinking, pre-sizing of literals)
+    # refines the abstract map for every hash function over the small universe
+    ri = tlc.run(env.tmpdir("tlc"), "RtMapImpl", "MC_RtMapImplSmall.cfg" if tier == "quick" else "MC_RtMapImpl.cfg",
+                 ["rt"], workers=16, timeout=3000)
+    if ri["violated"] or not ri["finished"]:
+        raise core.Undecided("RtMapImpl does not refine the abstract map at the design level:\n" + tlc.tail(ri["out"], 25))
+    states += ri["distinct"]
+    trans += ri["states"]
+    chk.cov["impl_refinement_states"] = ri["distinct"]
     for cfg, kw, kind, nkeys in gens:
         a = dict(workers=8)
         a.update(kw)
